@@ -8,7 +8,7 @@ EXTENDS Dispatch, Json
 CONSTANT Depth
 VARIABLE hist
 
-Exp == [reply |-> last'.reply, calls |-> last'.calls, hookarg |-> last'.hookarg, upd |-> last'.upd, snap |-> last'.snap,
+Exp == [reply |-> last'.reply, calls |-> last'.calls, hookarg |-> last'.hookarg, upd |-> last'.upd, hassnap |-> last'.hassnap, snap |-> last'.snap,
         cache |-> cache']
 GInit == \E id \in ShapeIds(Families) :
             InitWith(ShapeOf(id)) /\ hist = [sid |-> id, path |-> <<>>]
